@@ -36,18 +36,21 @@ def tbl_intervals(blocks, strand):
 
 
 def export(spec, seed=None, ctx=None, **kw):
-    coll = mkcollection(spec["obj"], chrom_parent(spec["genome"]))
+    # one table may hold several sequences: further collections (spec["more"]) are written after the first one
+    colls = [mkcollection(spec["obj"], chrom_parent(spec["genome"]))]
+    for k_, m_ in enumerate(spec.get("more") or []):
+        colls.append(mkcollection(m_["obj"], chrom_parent(m_["genome"], name="chr%d" % (k_ + 2)), sequence_name="chr%d" % (k_ + 2)))
     buf = io.StringIO()
     with warnings.catch_warnings():
         warnings.simplefilter("ignore")
         args = dict(translation_table=TranslationTable[spec["table"]], locus_tag_prefix=spec.get("prefix"),
                     genbank_flavor=GenbankFlavor[spec["flavor"]], locus_tag_jump_size=spec["jump"], submitter_lab_name=spec.get("lab"),
                     random_seed=spec["seed"] if seed is None else seed, **kw)
-        collection_to_tbl([coll], buf, **args)
+        collection_to_tbl(colls, buf, **args)
         if ctx is not None:
             # the same collection OBJECT written again with the same seed gives the same table
             buf2 = io.StringIO()
-            collection_to_tbl([coll], buf2, **args)
+            collection_to_tbl(colls, buf2, **args)
             ctx.true("second_export_same_file", buf2.getvalue() == buf.getvalue(), {"first": buf.getvalue()[:300], "second": buf2.getvalue()[:300]})
     return buf.getvalue()
 
@@ -84,8 +87,12 @@ def cds_facts(t, g, table):
 
 
 def check_tbl(spec, ctx):
-    o, g = spec["obj"], spec["genome"]
-    genes = sorted(o["genes"], key=lambda gn: min(t["exons"][0][0] for t in gn["transcripts"]))
+    parts = [(spec["obj"], spec["genome"])] + [(m_["obj"], m_["genome"]) for m_ in (spec.get("more") or [])]
+    genes = [gn for o_, _ in parts for gn in o_["genes"]]
+    if len(parts) > 1:
+        ctx.label("several_sequences")
+        if sum(1 for o_, _ in parts if o_["genes"]) > 1:
+            ctx.nt("several_sequences_with_genes")
     if spec["seed"] == 0:
         ctx.label("seed0")
     try:
@@ -100,10 +107,38 @@ def check_tbl(spec, ctx):
     except FormatError as e:
         ctx.fail("tbl_unparseable", repr(e)[:200])
         return
-    if not ctx.eq("one_header", len(recs), 1):
+    if not ctx.eq("one_header_per_sequence", len(recs), len(parts)):
         return
-    ctx.eq("header_names_sequence", recs[0]["header"], "chr1")
-    feats = recs[0]["features"]
+    tags = []
+    for k_, ((o, g), rec_) in enumerate(zip(parts, recs)):
+        ctx.eq("header_names_sequence", rec_["header"], "chr%d" % (k_ + 1))
+        _check_one_sequence(spec, ctx, o, g, rec_["features"], tags)
+    # locus tags unique, increasing by the requested step - over the whole table
+    ctx.eq("locus_tags_unique", len(set(tags)), len(tags))
+    nums = []
+    for tg in tags:
+        if tg is None or "_" not in tg:
+            ctx.fail("locus_tag_format", tg)
+            continue
+        pre, num = tg.rsplit("_", 1)
+        if spec.get("prefix"):
+            ctx.eq("locus_tag_prefix", pre, spec["prefix"])
+        nums.append(int(num))
+    ctx.eq("locus_tags_step", nums, [spec["jump"] * (i + 1) for i in range(len(nums))])
+    # reproducible for a fixed seed
+    text2 = export(spec)
+    ctx.true("reproducible_for_fixed_seed", text2 == text, {"seed": spec["seed"], "diff": [(a, b) for a, b in zip(text.split("\n"), text2.split("\n")) if a != b][:2]})
+    # ... also in another interpreter: sets of qualifier values iterate in an order that depends on PYTHONHASHSEED
+    multi = any(len(v) >= 2 for g_ in genes for t in g_["transcripts"] for v in (t.get("qualifiers") or {}).values())
+    if multi or spec.get("hashseed_always"):
+        hs = 1 + (len(text) % 3)
+        text3 = export_under_hash_seed(spec, hs)
+        ctx.label("exported_under_another_hash_seed")
+        ctx.true("reproducible_across_hash_seeds", text3 == text, {"hash_seed": hs, "diff": [(a, b) for a, b in zip(text.split("\n"), text3.split("\n")) if a != b][:2]})
+
+
+def _check_one_sequence(spec, ctx, o, g, feats, tags):
+    genes = sorted(o["genes"], key=lambda gn: min(t["exons"][0][0] for t in gn["transcripts"]))
     # expected records
     exp = []
     for gn in genes:
@@ -127,7 +162,6 @@ def check_tbl(spec, ctx):
                 exp.append((ftype, tbl_intervals(t["exons"], t["strand"]), False, False, False, None, t))
     if not ctx.eq("record_types", [f["key"] for f in feats], [e[0] for e in exp]):
         return
-    tags = []
     for f, (key, iv, p5, p3, pseudo, cstart, src) in zip(feats, exp):
         got_iv = [(a, b) for a, b, _, _ in f["intervals"]]
         ctx.eq("intervals:" + key, got_iv, iv)
@@ -170,28 +204,6 @@ def check_tbl(spec, ctx):
             tags.append(q.get("locus_tag", [None])[0])
         else:
             ctx.eq("child_locus_tag:" + key, q.get("locus_tag", [None])[0], tags[-1] if tags else None)
-    # locus tags unique, increasing by the requested step
-    ctx.eq("locus_tags_unique", len(set(tags)), len(tags))
-    nums = []
-    for tg in tags:
-        if tg is None or "_" not in tg:
-            ctx.fail("locus_tag_format", tg)
-            continue
-        pre, num = tg.rsplit("_", 1)
-        if spec.get("prefix"):
-            ctx.eq("locus_tag_prefix", pre, spec["prefix"])
-        nums.append(int(num))
-    ctx.eq("locus_tags_step", nums, [spec["jump"] * (i + 1) for i in range(len(nums))])
-    # reproducible for a fixed seed
-    text2 = export(spec)
-    ctx.true("reproducible_for_fixed_seed", text2 == text, {"seed": spec["seed"], "diff": [(a, b) for a, b in zip(text.split("\n"), text2.split("\n")) if a != b][:2]})
-    # ... also in another interpreter: sets of qualifier values iterate in an order that depends on PYTHONHASHSEED
-    multi = any(len(v) >= 2 for g_ in spec["obj"]["genes"] for t in g_["transcripts"] for v in (t.get("qualifiers") or {}).values())
-    if multi or spec.get("hashseed_always"):
-        hs = 1 + (len(text) % 3)
-        text3 = export_under_hash_seed(spec, hs)
-        ctx.label("exported_under_another_hash_seed")
-        ctx.true("reproducible_across_hash_seeds", text3 == text, {"hash_seed": hs, "diff": [(a, b) for a, b in zip(text.split("\n"), text3.split("\n")) if a != b][:2]})
 
 
 # ------------------------------------------------------------------------------------ strategy
@@ -208,7 +220,19 @@ def plant(genome, positions, strand, codon):
 
 @st.composite
 def strat_tbl(draw, tier="quick"):
-    ng = draw(st.integers(1, 3))
+    sp = draw(_one_collection())
+    sp.update({"flavor": draw(st.sampled_from(["EUKARYOTIC", "PROKARYOTIC"])),
+               "table": draw(st.sampled_from(["DEFAULT", "STANDARD", "PROKARYOTE"])), "jump": draw(st.sampled_from([1, 5, 10])),
+               "seed": draw(st.sampled_from([0, 0, 1, 7, 123456])), "prefix": draw(st.one_of(st.none(), st.just("PFX"))), "lab": draw(st.one_of(st.none(), st.just("LAB")))})
+    if draw(st.integers(0, 3)) == 0:
+        # a table of several sequences; a later sequence may also have no gene at all
+        sp["more"] = [draw(_one_collection(min_genes=draw(st.sampled_from([0, 1, 1])), tag="s%d" % k)) for k in range(draw(st.integers(1, 2)))]
+    return sp
+
+
+@st.composite
+def _one_collection(draw, min_genes=1, tag=""):
+    ng = draw(st.integers(min_genes, 3))
     genes = []
     cursor = draw(st.integers(0, 3))
     plants = []
@@ -225,7 +249,7 @@ def strat_tbl(draw, tier="quick"):
         else:
             gtype = draw(st.sampled_from(["ncRNA", "tRNA", "rRNA", "misc_RNA", "lncRNA"]))
             t["transcript_type"] = gtype
-        genes.append({"transcripts": [t], "gene_id": None, "gene_symbol": draw(st.one_of(st.none(), st.just("GENE%d" % i))), "gene_type": gtype,
+        genes.append({"transcripts": [t], "gene_id": None, "gene_symbol": draw(st.one_of(st.none(), st.just("GENE%s%d" % (tag, i)))), "gene_type": gtype,
                       "locus_tag": draw(st.one_of(st.none(), st.just("OLD_%d" % i))), "qualifiers": {}})
         if coding:
             plants.append((t, draw(st.sampled_from(["ATG", "ATG", "ATG", "TTG", "GTG", None, None])), draw(st.sampled_from(["TAA", "TGA", "TAG", None])),
@@ -247,17 +271,15 @@ def strat_tbl(draw, tier="quick"):
             g = plant(g, codons[0], t["strand"], startc)
         if stopc and len(codons) > 1:
             g = plant(g, codons[-1], t["strand"], stopc)
-    return {"obj": {"genes": genes, "feature_collections": [], "name": None}, "genome": g, "flavor": draw(st.sampled_from(["EUKARYOTIC", "PROKARYOTIC"])),
-            "table": draw(st.sampled_from(["DEFAULT", "STANDARD", "PROKARYOTE"])), "jump": draw(st.sampled_from([1, 5, 10])),
-            "seed": draw(st.sampled_from([0, 0, 1, 7, 123456])), "prefix": draw(st.one_of(st.none(), st.just("PFX"))), "lab": draw(st.one_of(st.none(), st.just("LAB")))}
+    return {"obj": {"genes": genes, "feature_collections": [], "name": None}, "genome": g}
 
 
 PROP = Prop(
     pid="C17",
     legs=[
         Leg("tbl", check_tbl, strategy=strat_tbl, n_quick=700, n_thorough=6000, shards_quick=4,
-            must_hit=["5p_partial", "3p_partial_frame", "3p_partial_nostop", "pseudo", "adjacent_cds_merged", "minus_multi_exon", "seed0", "complete_cds", "alt_start", "exported_under_another_hash_seed"],
-            rule="collections with sequence on a whole chromosome, 1..3 genes (one transcript each; coding with start offsets 0/1/2 and 0-bp-gap CDS blocks, or ncRNA/tRNA/rRNA/misc_RNA/lncRNA), sequences with planted start / stop / in-frame stop codons, x flavour x translation table x locus_tag_jump_size x random_seed (incl. 0) x optional prefix/lab; the text is read by an independent 5-column reader"),
+            must_hit=["5p_partial", "3p_partial_frame", "3p_partial_nostop", "pseudo", "adjacent_cds_merged", "minus_multi_exon", "seed0", "complete_cds", "alt_start", "exported_under_another_hash_seed", "several_sequences_with_genes"],
+            rule="1..3 collections (sequences) per table, each with sequence on a whole chromosome, 1..3 genes (one transcript each; coding with start offsets 0/1/2 and 0-bp-gap CDS blocks, or ncRNA/tRNA/rRNA/misc_RNA/lncRNA), sequences with planted start / stop / in-frame stop codons, x flavour x translation table x locus_tag_jump_size x random_seed (incl. 0) x optional prefix/lab; the text is read by an independent 5-column reader"),
     ],
     rule="Oracle: independent TBL reader; merged source blocks as 1-based inclusive 5'->3' intervals; FrameModel + codon tables for partial marks, codon_start and pseudo. "
          "Non-trivial: minus multi-exon, or a partial mark, or pseudo.",
